@@ -171,7 +171,7 @@ class NcpSim:
         self.default = None
         self.log = []
         self.unparsed = []
-        self.last_seq = 0
+        self.last_seq = 0xFF            # callbacks carry the sequence number of the last answered command (none yet)
         self.framing = version          # version whose header layout the NCP currently speaks
 
     def on_request(self, data: bytes):
